@@ -8,6 +8,7 @@ import (
 	"go/constant"
 	"go/token"
 	"go/types"
+	"strconv"
 	"strings"
 
 	"golang.org/x/tools/go/ssa"
@@ -525,6 +526,14 @@ func flattenD(c Cond, depth int) []Cond {
 		return flattenD(Cond{u.X, !c.Pos, c.If}, depth)
 	}
 	if ph, ok := c.V.(*ssa.Phi); ok && depth < 4 {
+		if j, known := pathPhiEdge(ph); known {
+			// PathFlow knows which predecessor this path came through
+			e := ph.Edges[j]
+			if _, isC := e.(*ssa.Const); isC {
+				return []Cond{c}
+			}
+			return append([]Cond{c}, flattenD(Cond{e, c.Pos, c.If}, depth+1)...)
+		}
 		want := "false"
 		if !c.Pos {
 			want = "true"
@@ -546,6 +555,118 @@ func flattenD(c Cond, depth int) []Cond {
 		}
 	}
 	return []Cond{c}
+}
+
+// pathTokens is set by PathFlow while it evaluates an edge: the facts of the
+// path being extended, among them which incoming edge each boolean phi took
+// ("φ:<phi>=<j>"), so that short-circuit conditions (`a && b`, `a || b`, which
+// go/ssa compiles to a phi of a constant and the second operand) are decoded
+// exactly along each path instead of only on the edge where both operands are
+// determined.
+var pathTokens Tokens
+
+func phiKey(ph *ssa.Phi) string { return "φ:" + localName(ph) + "=" }
+
+func pathPhiEdge(ph *ssa.Phi) (int, bool) {
+	if pathTokens == nil {
+		return 0, false
+	}
+	k := phiKey(ph)
+	for j := range ph.Edges {
+		if pathTokens[k+strconv.Itoa(j)] {
+			return j, true
+		}
+	}
+	return 0, false
+}
+
+// phiInfeasible: the If of b tests (a negation of) a boolean phi whose incoming
+// value on this path is a constant contradicting successor idx.
+func phiInfeasible(b *ssa.BasicBlock, idx int, t Tokens) bool {
+	iff, ok := b.Instrs[len(b.Instrs)-1].(*ssa.If)
+	if !ok {
+		return false
+	}
+	v, pos := iff.Cond, idx == 0
+	for d := 0; d < 6; d++ {
+		if u, ok := v.(*ssa.UnOp); ok && u.Op == token.NOT {
+			v, pos = u.X, !pos
+			continue
+		}
+		ph, ok := v.(*ssa.Phi)
+		if !ok {
+			return false
+		}
+		k := phiKey(ph)
+		found := false
+		for j, e := range ph.Edges {
+			if !t[k+strconv.Itoa(j)] {
+				continue
+			}
+			found = true
+			if cst, isC := e.(*ssa.Const); isC && cst.Value != nil {
+				return (cst.Value.ExactString() == "true") != pos
+			}
+			v = e
+		}
+		if !found {
+			return false
+		}
+	}
+	return false
+}
+
+// notePhis records, for the boolean phis of s, that the path enters s from b.
+func notePhis(b, s *ssa.BasicBlock, t Tokens) {
+	j, n := -1, 0
+	for i, p := range s.Preds {
+		if p == b {
+			j = i
+			n++
+		}
+	}
+	for _, in := range s.Instrs {
+		ph, ok := in.(*ssa.Phi)
+		if !ok {
+			break
+		}
+		if bt, isB := ph.Type().Underlying().(*types.Basic); !isB || bt.Kind() != types.Bool {
+			continue
+		}
+		k := phiKey(ph)
+		for tk := range t {
+			if strings.HasPrefix(tk, k) {
+				delete(t, tk)
+			}
+		}
+		if n == 1 {
+			t[k+strconv.Itoa(j)] = true
+		}
+	}
+}
+
+// dropLocalPhis forgets, on leaving b, the phis of b that are used only inside b.
+func dropLocalPhis(b *ssa.BasicBlock, t Tokens) {
+	for _, in := range b.Instrs {
+		ph, ok := in.(*ssa.Phi)
+		if !ok {
+			break
+		}
+		local := true
+		for _, r := range *ph.Referrers() {
+			if r.Block() != b {
+				local = false
+			}
+		}
+		if local {
+			k := phiKey(ph)
+			for tk := range t {
+				if strings.HasPrefix(tk, k) {
+					delete(t, tk)
+				}
+			}
+		}
+	}
 }
 
 // EdgeConds returns the conditions established by taking successor idx of b
@@ -909,9 +1030,20 @@ func PathFlowFrom(fn *ssa.Function, ff FlowFuncs, init Tokens) map[*ssa.BasicBlo
 			for _, t := range ts {
 				for idx, s := range b.Succs {
 					te := t.clone()
-					if ff.Edge != nil && !ff.Edge(b, idx, te) {
+					if phiInfeasible(b, idx, te) {
 						continue
 					}
+					if ff.Edge != nil {
+						saved := pathTokens
+						pathTokens = te
+						ok := ff.Edge(b, idx, te)
+						pathTokens = saved
+						if !ok {
+							continue
+						}
+					}
+					dropLocalPhis(b, te)
+					notePhis(b, s, te)
 					nd, changed := in[s].add(te)
 					in[s] = nd
 					if changed && !inWork[s] {
@@ -1039,30 +1171,36 @@ func NewInliner(ff *FlowFuncs, inScope func(*ssa.Function) bool) *Inliner {
 	return il
 }
 
-func retKey(call *ssa.Call) string { return "ret:" + Term(call) + "=" }
+func retKey(call *ssa.Call, i int) string { return fmt.Sprintf("ret:%s#%d=", Term(call), i) }
+
+// resultOf: v is result i of a call.
+func resultOf(v ssa.Value) (*ssa.Call, int, bool) {
+	switch y := Resolve(v).(type) {
+	case *ssa.Call:
+		if y.Call.Signature().Results().Len() == 1 {
+			return y, 0, true
+		}
+	case *ssa.Extract:
+		if c2, ok := y.Tuple.(*ssa.Call); ok {
+			return c2, y.Index, true
+		}
+	}
+	return nil, 0, false
+}
 
 func (il *Inliner) edgeFn(b *ssa.BasicBlock, idx int, t Tokens) bool {
 	for _, cd := range EdgeConds(b, idx) {
 		if x, isNil, ok := NilCheck(cd); ok {
-			var call *ssa.Call
-			switch y := Resolve(x).(type) {
-			case *ssa.Call:
-				call = y
-			case *ssa.Extract:
-				if c2, ok := y.Tuple.(*ssa.Call); ok && y.Index == c2.Call.Signature().Results().Len()-1 {
-					call = c2
-				}
-			}
-			if call != nil {
-				k := retKey(call)
+			if call, i, ok := resultOf(x); ok {
+				k := retKey(call, i)
 				if (isNil && t[k+"nonnil"]) || (!isNil && t[k+"nil"]) {
 					return false
 				}
 			}
 			continue
 		}
-		if call, ok := Resolve(cd.V).(*ssa.Call); ok {
-			k := retKey(call)
+		if call, i, ok := resultOf(cd.V); ok {
+			k := retKey(call, i)
 			if (cd.Pos && t[k+"false"]) || (!cd.Pos && t[k+"true"]) {
 				return false
 			}
@@ -1116,10 +1254,10 @@ func (il *Inliner) call(in ssa.Instruction, t Tokens) []Tokens {
 			}
 		}
 	}()
-	k := retKey(call)
+	kpref := "ret:" + Term(call) + "#"
 	init := t.clone()
 	for tk := range init {
-		if strings.HasPrefix(tk, k) {
+		if strings.HasPrefix(tk, kpref) {
 			delete(init, tk)
 		}
 	}
@@ -1134,28 +1272,31 @@ func (il *Inliner) call(in ssa.Instruction, t Tokens) []Tokens {
 		if !ok {
 			continue
 		}
-		kind := ""
-		if n := res.Len(); n > 0 && res.At(n-1).Type().String() == "error" {
-			ev := RetVal(r, n-1)
-			switch {
-			case IsNilConst(ev):
-				kind = "nil"
-			case provablyNonNil(ev, b):
-				kind = "nonnil"
-			default:
-				kind = "unk"
-				if p, isP := ev.(*ssa.Parameter); isP {
-					for i, q := range h.Params {
-						if q == p && provablyNonNil(call.Call.Args[i], call.Block()) {
-							kind = "nonnil"
+		kinds := map[int]string{}
+		for i := 0; i < res.Len() && i < len(r.Results); i++ {
+			switch res.At(i).Type().String() {
+			case "error":
+				ev := RetVal(r, i)
+				switch {
+				case IsNilConst(ev):
+					kinds[i] = "nil"
+				case provablyNonNil(ev, b):
+					kinds[i] = "nonnil"
+				default:
+					kinds[i] = "unk"
+					if p, isP := ev.(*ssa.Parameter); isP {
+						for j, q := range h.Params {
+							if q == p && provablyNonNil(call.Call.Args[j], call.Block()) {
+								kinds[i] = "nonnil"
+							}
 						}
 					}
 				}
-			}
-		} else if n == 1 && res.At(0).Type().String() == "bool" {
-			kind = "unk"
-			if cst, isC := RetVal(r, 0).(*ssa.Const); isC && cst.Value != nil {
-				kind = cst.Value.String()
+			case "bool":
+				kinds[i] = "unk"
+				if cst, isC := RetVal(r, i).(*ssa.Const); isC && cst.Value != nil {
+					kinds[i] = cst.Value.String()
+				}
 			}
 		}
 		for _, d0 := range flow[b] {
@@ -1164,8 +1305,8 @@ func (il *Inliner) call(in ssa.Instruction, t Tokens) []Tokens {
 				ts = il.FF.step(ins, ts)
 			}
 			for _, tt := range ts {
-				if kind != "" {
-					tt[k+kind] = true
+				for i, kind := range kinds {
+					tt[retKey(call, i)+kind] = true
 				}
 				out, _ = out.add(tt)
 			}
@@ -1187,6 +1328,11 @@ func provablyNonNil(v ssa.Value, b *ssa.BasicBlock) bool {
 		return true
 	case *ssa.Alloc:
 		return true
+	case *ssa.Call:
+		switch CalleeName(&x.Call) {
+		case "fmt.Errorf", "errors.New":
+			return true
+		}
 	case *ssa.UnOp:
 		if g, ok := x.X.(*ssa.Global); ok && x.Op == token.MUL {
 			return SentinelGlobal(g)
@@ -1246,4 +1392,3 @@ func SentinelGlobal(g *ssa.Global) bool {
 	}
 	return n == 1
 }
-
